@@ -10,7 +10,7 @@ sys.path.insert(0, os.path.dirname(os.path.abspath(__file__)))
 import gen
 import units
 
-FN_HDR = re.compile(r'^\s*(?:pub(?:\([a-z]+\))?\s+)?(?:open\s+|closed\s+|broadcast\s+|uninterp\s+)*'
+FN_HDR = re.compile(r'^\s*(?:#\[[^\]]*\]\s*)*(?:pub(?:\([a-z]+\))?\s+)?(?:open\s+|closed\s+|broadcast\s+|uninterp\s+)*'
                     r'(?:unsafe\s+|const\s+|proof\s+|spec\s+|exec\s+|axiom\s+)*fn\s+([A-Za-z_0-9]+)')
 
 # message -> (kind, code_level)  ; code_level means: an obligation the *code* must meet (not just the proof script)
